@@ -358,6 +358,16 @@ def stereo_mol_graph_to_rdmol(
 
         assert {a1, a2} == {new_a1, new_a2}
 
+        # None is a placeholder for a missing substituent. The stereo atoms
+        # are the first existing substituent of each end; taking the second
+        # substituent of one end turns cis into trans (CW into CCW).
+        i1 = 0 if b_stereo.atoms[0] is not None else 1
+        i2 = 4 if b_stereo.atoms[4] is not None else 5
+        stereo_atom1, stereo_atom2 = b_stereo.atoms[i1], b_stereo.atoms[i2]
+        swapped = (i1 == 1) != (i2 == 5)
+        if stereo_atom1 is None or stereo_atom2 is None:
+            continue  # an end without substituents has no orientation
+
         if isinstance(b_stereo, PlanarBond):
             
             mol.GetAtomWithIdx(rd_a1).SetHybridization(
@@ -372,17 +382,19 @@ def stereo_mol_graph_to_rdmol(
 
             elif (a1, a2) == (new_a1, new_a2):
                 rd_bond.SetStereoAtoms(
-                    map_num_idx_dict[b_stereo.atoms[0]],
-                    map_num_idx_dict[b_stereo.atoms[4]],
+                    map_num_idx_dict[stereo_atom1],
+                    map_num_idx_dict[stereo_atom2],
                 )
-                rd_bond.SetStereo(Chem.rdchem.BondStereo.STEREOZ)
+                rd_bond.SetStereo(Chem.rdchem.BondStereo.STEREOE if swapped
+                                  else Chem.rdchem.BondStereo.STEREOZ)
 
             elif (a1, a2) == (new_a2, new_a1):
                 rd_bond.SetStereoAtoms(
-                    map_num_idx_dict[b_stereo.atoms[4]],
-                    map_num_idx_dict[b_stereo.atoms[0]],
+                    map_num_idx_dict[stereo_atom2],
+                    map_num_idx_dict[stereo_atom1],
                 )
-                rd_bond.SetStereo(Chem.rdchem.BondStereo.STEREOZ)
+                rd_bond.SetStereo(Chem.rdchem.BondStereo.STEREOE if swapped
+                                  else Chem.rdchem.BondStereo.STEREOZ)
             else:
                 raise Exception(f"something wrong with {b_stereo}")
 
@@ -403,25 +415,26 @@ def stereo_mol_graph_to_rdmol(
 
         elif isinstance(b_stereo, AtropBond):
 
+            if b_stereo.parity is None:
+                continue
+            atrop_parity = b_stereo.parity * (-1 if swapped else 1)
+            rd_atrop = {1: Chem.rdchem.BondStereo.STEREOATROPCW,
+                        -1: Chem.rdchem.BondStereo.STEREOATROPCCW}
+
             if (a1, a2) == (new_a1, new_a2):
                 rd_bond.SetStereoAtoms(
-                    map_num_idx_dict[b_stereo.atoms[0]],
-                    map_num_idx_dict[b_stereo.atoms[4]],
+                    map_num_idx_dict[stereo_atom1],
+                    map_num_idx_dict[stereo_atom2],
                 )
-                if b_stereo.parity == 1:
-                    rd_bond.SetStereo(Chem.rdchem.BondStereo.STEREOATROPCW)
-                elif b_stereo.parity == -1:
-                    rd_bond.SetStereo(Chem.rdchem.BondStereo.STEREOATROPCCW)
+                rd_bond.SetStereo(rd_atrop[atrop_parity])
 
             elif (a1, a2) == (new_a2, new_a1):
+                # seen from the other end the sense of rotation is the same
                 rd_bond.SetStereoAtoms(
-                    map_num_idx_dict[b_stereo.atoms[4]],
-                    map_num_idx_dict[b_stereo.atoms[0]],
+                    map_num_idx_dict[stereo_atom2],
+                    map_num_idx_dict[stereo_atom1],
                 )
-                if b_stereo.parity == 1:
-                    rd_bond.SetStereo(Chem.rdchem.BondStereo.STEREOATROPCCW)
-                elif b_stereo.parity == -1:
-                    rd_bond.SetStereo(Chem.rdchem.BondStereo.STEREOATROPCW)
+                rd_bond.SetStereo(rd_atrop[atrop_parity])
             else:
                 raise Exception(f"something wrong with {b_stereo}")
 
